@@ -138,10 +138,10 @@ theorem level_actions_compile {S : Schema} {ft : List (Name × Name)} {env : Lis
       rw [this, toGoField_ty, hs']
     simp [actionCompiles, hfty, htn', hty]
 
-/-- The constants generated for each enum are pairwise distinct (excludes the open finding F-20f). -/
-def enumConstsOK (S : Schema) : Bool :=
+/-- The values of each enum are pairwise distinct (they are the keys of a Go map). -/
+def enumValuesOK (S : Schema) : Bool :=
   S.types.all fun
-    | .enum nm vs => nodupB (vs.map (constName nm))
+    | .enum _ vs => nodupB vs
     | _ => true
 
 /-- All declarations of a generator state are well-formed w.r.t. the final identifiers. -/
@@ -153,18 +153,16 @@ def FragNames (ft : List (Name × Name)) (names : List Name) : Prop :=
 
 /-! ### Distinctness of the declared identifiers -/
 
-/-- The naming assumptions: no composite type name ends in a digit (F-20g otherwise), and neither an
-    enum name nor a typedef name (`<Op>Data`, `<F>Fragment`; the list `tds`) begins with `sel` or
-    coincides with one of the other kind. -/
+/-- The naming assumptions: neither an enum name nor a typedef name (`<Op>Data`, `<F>Fragment`; the
+    list `tds`) begins with `sel` or coincides with one of the other kind. -/
 structure NamesHyp (S : Schema) (tds : List Name) : Prop where
-  comp : ∀ td ∈ S.types, isComposite td = true → noDigitEnd td.name = true
   enumNoSel : ∀ nm vs, TypeDef.enum nm vs ∈ S.types → startsWithSel nm = false
   tdNoSel : ∀ n ∈ tds, startsWithSel n = false
   enumNotTd : ∀ nm vs, TypeDef.enum nm vs ∈ S.types → nm ∉ tds
 
 /-- What a declaration's name looks like, given the state that emitted it. -/
 def NameShape (S : Schema) (tds : List Name) (st : St) : Decl → Prop
-  | .sel n _ _ => ∃ td k, td ∈ S.types ∧ isComposite td = true ∧ n = n_sel ++ td.name ++ natDigits k ∧ k < st.count
+  | .sel n _ _ => ∃ td k, td ∈ S.types ∧ isComposite td = true ∧ n = n_sel ++ td.name ++ [95] ++ natDigits k ∧ k < st.count
   | .enum n _ => n ∈ st.enums ∧ ∃ vs, TypeDef.enum n vs ∈ S.types
   | .typedef n _ _ => n ∈ tds
 
@@ -174,7 +172,7 @@ def NameInv (S : Schema) (tds : List Name) (st : St) : Prop :=
 
 theorem nameInv_add_sel {S : Schema} {tds : List Name} (hN : NamesHyp S tds) {st : St} (h : NameInv S tds st)
     {td : TypeDef} (htd : td ∈ S.types) (hc : isComposite td = true) (fs : List GoField) (acts : List Action) :
-    NameInv S tds { st with decls := st.decls ++ [.sel (n_sel ++ td.name ++ natDigits st.count) fs acts],
+    NameInv S tds { st with decls := st.decls ++ [.sel (n_sel ++ td.name ++ [95] ++ natDigits st.count) fs acts],
                             count := st.count + 1 } := by
   obtain ⟨hnd, hsh⟩ := h
   constructor
@@ -192,18 +190,18 @@ theorem nameInv_add_sel {S : Schema} {tds : List Name} (hN : NamesHyp S tds) {st
       obtain ⟨td', k, htd', hc', hn, hk⟩ := this
       simp only [Decl.name] at heq
       rw [hn] at heq
-      have := sel_name_inj (hN.comp td' htd' hc') (hN.comp td htd hc) heq
+      have := sel_name_inj heq
       omega
     | enum n cs =>
       obtain ⟨_, vs, hvs⟩ := this
       simp only [Decl.name] at heq
       have h1 := hN.enumNoSel n vs hvs
-      rw [heq, List.append_assoc, startsWithSel_sel] at h1
+      rw [heq, List.append_assoc, List.append_assoc, startsWithSel_sel] at h1
       cases h1
     | typedef n t f =>
       simp only [Decl.name] at heq
       have h1 := hN.tdNoSel n this
-      rw [heq, List.append_assoc, startsWithSel_sel] at h1
+      rw [heq, List.append_assoc, List.append_assoc, startsWithSel_sel] at h1
       cases h1
   · intro d hd
     simp only [List.mem_append, List.mem_singleton] at hd
@@ -236,7 +234,7 @@ theorem nameInv_add_enum {S : Schema} {tds : List Name} (hN : NamesHyp S tds) {s
       obtain ⟨td', k, _, _, hn, _⟩ := this
       simp only [Decl.name] at heq
       have h1 := hN.enumNoSel nm vs hvs
-      rw [← heq, hn, List.append_assoc, startsWithSel_sel] at h1
+      rw [← heq, hn, List.append_assoc, List.append_assoc, startsWithSel_sel] at h1
       cases h1
     | enum n cs' =>
       simp only [Decl.name] at heq
@@ -273,7 +271,7 @@ theorem nameInv_add_typedef {S : Schema} {tds : List Name} (hN : NamesHyp S tds)
       obtain ⟨td', k, _, _, hm, _⟩ := this
       simp only [Decl.name] at heq
       have h1 := hN.tdNoSel _ hn
-      rw [← heq, hm, List.append_assoc, startsWithSel_sel] at h1
+      rw [← heq, hm, List.append_assoc, List.append_assoc, startsWithSel_sel] at h1
       cases h1
     | enum m cs' =>
       obtain ⟨_, vs, hvs⟩ := this
